@@ -14,7 +14,9 @@ EXPLANATION = (
     "pass limit/offset through, selected by order_by.is_empty(); (R16d) the sort comparator table (missing key sorts "
     "after present, Desc reverses) with the stable sort_by.")
 DECIDED = ["R16a slice cannot index past the end (PANIC local)", "R16b (limit, offset) -> handler table (TABLE + SIBLING)",
-           "R16c ordered searches: full search, sort, slice in that order (MUST)", "R16d comparator table, stable sort"]
+           "R16c ordered searches: full search, sort, slice in that order (MUST)", "R16d comparator table, stable sort",
+           "R16b (cont.) handler constructors receive limit/offset in the right positions",
+           "R16d (cont.) ordering keys are looked up by key equality"]
 UNDECIDED = ["that the streaming handlers count correctly (arithmetic on counters)", "result contents (needs execution)"]
 
 SQ = "agdb::query::search_query::SearchQuery::"
